@@ -45,9 +45,16 @@ _WMB = ("_RINvMs_NtNtCs36Lg0Iv5OGD_8dust_dds4rtps15stateful_writerNtNtB7_12reade
         "NtNtNtB9_26s2e_systems_dust_dds_verif12support_rtps4SentEB9_")
 
 
+# drop_glue::<[Parameter]>: dropping a DataFragSubmessage (Vec::retain on frag_buffer) drops its inline-QoS parameter
+# list, whose length is opaque in a heap buffer. Every fragment the harnesses buffer is produced by
+# CacheChange::as_data_frag_submessage, which attaches an EMPTY list; bound 2 allows one parameter and the
+# unwinding assertion reports anything longer.
+_DROP_PARAMS = "_RINvNtCs8xvirJzNMvV_4core3ptr9drop_glueSNtNtNtCs36Lg0Iv5OGD_8dust_dds13rtps_messages19submessage_elements9ParameterEBI_.0"
+
+
 def _cbmc(frag, unsent, requested):
-    return ["--unwindset", "memcmp.0:17,%s:18,%s.0:7,%s.1:7,%s.0:%d,%s.1:%d,%s.2:%d,%s.0:1,%s.1:1"
-            % (_EXTEND_WITH, _POW, _POW, _WMR, frag, _WMR, unsent, _WMR, requested, _WMB, _WMB)]
+    return ["--unwindset", "memcmp.0:17,%s:18,%s.0:7,%s.1:7,%s.0:%d,%s.1:%d,%s.2:%d,%s.0:1,%s.1:1,%s:2"
+            % (_EXTEND_WITH, _POW, _POW, _WMR, frag, _WMR, unsent, _WMR, requested, _WMB, _WMB, _DROP_PARAMS)]
 
 
 _TMO = {"quick": 1500, "thorough": 2400}  # per harness; measured 30-640 s each on the shared, loaded machine
@@ -132,15 +139,20 @@ prop("C01", ready=True, level="other",
          "(2) kernel - missing_changes()/available_changes_max() are exactly max(first,highest+1)..=last / max(first-1,highest) over "
          "full i64; (3) request step - after a fresh HEARTBEAT the emitted ACKNACK has base = available_changes_max+1 and names exactly "
          "the missing sequence numbers (numBits, bitmap, ids, count checked on the bytes of the real encoder), stale HEARTBEATs are "
-         "ignored, no ACKNACK where RTPS requires none; (4) the same step with a buffered fragment: ACKNACK set is cut below a partially "
-         "received sample and a NACK_FRAG with the 1-based missing fragment numbers is appended. Findings decided by the solver: "
-         "KF-C01-1 (a stale buffered fragment empties every later ACKNACK: missing changes are never requested again - permanent stall "
-         "of that reader), and through C05: KF-C05-1/KF-C05-2 (lost fragments of a reliable sample are never resent). The two reading "
-         "notes of the design were checked: `!missing_changes().count() == 0` is a dead disjunct (ACKNACKs are driven by "
-         "must_send_acknacks, set correctly by the HEARTBEAT glue) and is NOT a violation; the GAP branch of write_message_reliable "
-         "advancing highest_sent over the first post-gap change could not be executed (writer side out of reach) - by code reading the "
-         "skipped change is announced by the HEARTBEAT sent in the same datagram and requested by the next ACKNACK, i.e. it heals in "
-         "one round and is not a violation of the statement."),
+         "ignored, no ACKNACK where RTPS requires none; (4) the same step with a buffered fragment: the ACKNACK set is cut below a "
+         "partially received sample and a NACK_FRAG with the 1-based missing fragment numbers and a count > 0 is appended; a fragment "
+         "whose sample stopped being missing (GAP / firstSN moved past it) hides nothing; (5) GAP step - a GAP adjacent to the received "
+         "prefix extends available_changes_max exactly to the end of the gap. Defects found by these checks and repaired in /repo "
+         "(recorded as fixed, nothing suppressed): a stale buffered fragment emptied every later ACKNACK (fix 1d5179c); NACK_FRAG count "
+         "never incremented (fix d91489d); NACK_FRAG fragment numbers used as 0-based indices (fix 6b815dc). OPEN finding decided by the "
+         "solver, KF-C01-2: a GAP that starts beyond the next expected change raises the single received-watermark over the still-missing "
+         "changes before it, which are then acknowledged, never requested and never presented (one lost DATA datagram followed by a GAP "
+         "loses a sample the writer still holds). The two reading notes of the design were checked: `!missing_changes().count() == 0` is "
+         "a dead disjunct (ACKNACKs are driven by must_send_acknacks, set correctly by the HEARTBEAT glue) and is NOT a violation; the GAP "
+         "branch of write_message_reliable advancing highest_sent over the first post-gap change could not be executed (writer side out "
+         "of reach) - by code reading the skipped change is announced by the HEARTBEAT sent in the same datagram and requested by the next "
+         "ACKNACK, i.e. it heals in one round and is not a violation of the statement (but it is exactly the datagram shape - GAP ahead of "
+         "a not yet delivered DATA - that triggers KF-C01-2 when that DATA or an earlier one is lost)."),
      bounds=("safety step and kernel: sequence numbers over full i64 (below i64::MAX-16), payload 0..=3 symbolic bytes, optional 16-byte key "
              "hash; request steps: sequence numbers <= 1000, <= 4 missing changes, <= 1 buffered fragment of a 2-fragment sample, counts full "
              "i32; one matched writer per reader"),
@@ -212,15 +224,16 @@ prop("C05", ready=True, level="other",
          "(1) Slicing kernel: for every payload length 1..=7, fragment size 1..=3 and fragment index, "
          "CacheChange::as_data_frag_submessage yields fragment_starting_num = index+1, the exact byte slice "
          "[k*f, min((k+1)*f, L)), data_size L, fragment_size f - the fragments tile the payload. (2) NACK_FRAG contract, reader side: a "
-         "partially received missing sample is requested with NACK_FRAG(writerSN, exactly the missing fragment numbers, 1-based), cut "
-         "correctly against the ACKNACK set. (3) NACK_FRAG contract, writer side: stale counts are ignored; every datagram emitted is "
-         "INFO_DST+INFO_TS+DATA_FRAG of the requested sample, number within 1..=total, correct geometry and exactly the bytes of its own "
-         "fragment number. Two genuine defects are decided by the solver and kept as known findings: KF-C05-1 (nack_frag_count is never "
-         "incremented, every NACK_FRAG carries 0 and the writer ignores it) and KF-C05-2 (the writer uses the requested 1-based numbers as "
-         "0-based indices: a request for {1} resends fragment 2, a request for the last fragment resends nothing; base is resent twice). "
-         "Together: a lost fragment of a reliable sample is never resent."),
+         "partially received missing sample is requested with NACK_FRAG(writerSN, exactly the missing fragment numbers, 1-based, count > 0 "
+         "and strictly increasing over rounds), cut correctly against the ACKNACK set. (3) NACK_FRAG contract, writer side: stale counts "
+         "are ignored; every datagram emitted is INFO_DST+INFO_TS+DATA_FRAG of the requested sample with correct geometry and exactly the "
+         "bytes of its own fragment number, and the set of fragment numbers resent is exactly the numbers the NACK_FRAG names (base "
+         "included) that exist in the sample - duplicates allowed. Two genuine defects were found by these checks and repaired in /repo "
+         "(recorded as fixed, nothing suppressed): nack_frag_count was never incremented, so every NACK_FRAG carried 0 and was ignored by "
+         "the writer (fix d91489d); the writer used the requested 1-based numbers as 0-based indices - a request for {1} resent fragment "
+         "2, a request for the last fragment resent nothing (fix 6b815dc)."),
      bounds=("slicing: L 1..=7, f 1..=3 (k*f-1, k*f, k*f+1 for k <= 2), sn full i64; NACK_FRAG: 3-byte sample in 2 fragments of size 2, requested "
-             "set any non-empty subset of {1,2}, counts full i32, sequence numbers <= 1000"),
+             "set any non-empty subset of {1,2,3} (3 is beyond the sample) with base 1 or min, counts full i32, sequence numbers <= 1000"),
      outside=("REASSEMBLY (RtpsWriterProxy::reconstruct_data_from_frag through on_data_frag_submessage: exactly one change, byte-identical, only "
               "when the last missing fragment arrives, under reordering/duplication/interleaving) could NOT be decided: harnesses "
               "c05_reassembly_step_reliable/_besteffort/c05_reassembly_orders (kept in c05_frag.rs, not indexed) exceed 12 GB (symbolic execution "
@@ -229,7 +242,7 @@ prop("C05", ready=True, level="other",
               "fragment_size == 0 from the wire makes data_size / fragment_size panic in reconstruct_data_from_frag and div_ceil panic in "
               "write_message - not an 'accepted fragment size', reported to C06); more than 3 fragments; HEARTBEAT_FRAG"),
      level_text=("Bounded symbolic checking of the real fragmenting and NACK_FRAG code: decided by CBMC for all values within the bounds; "
-                 "two obligations fail for every input and are recorded as known findings with the failing assertion pinned."),
+                 "not sampling. Level 'other' because sizes are bounded and receive-side reassembly is outside."),
      level_note=_COMMON_NOTE,
      technique=_TECH,
      assumptions=["a reliable reader buffers a fragment only for the sequence number it expects when the fragment arrives",
